@@ -253,7 +253,7 @@ UsagesInValue(v, t, locDef) ==
   CASE v.k = "var" -> <<[n |-> v.n, t |-> t, locDef |-> locDef]>>
     [] v.k = "list" -> FlattenSeq([i \in 1..Len(v.vs) |->
                           UsagesInValue(v.vs[i], IF t.k = "nn" /\ t.of.k = "list" THEN t.of.of ELSE IF t.k = "list" THEN t.of ELSE Named(""), FALSE)])
-    [] v.k = "obj" -> LET nt == IF t.k = "nn" THEN t.of ELSE t IN
+    [] v.k = "obj" -> LET nt == Named(Unwrap(t)) IN       \* an object literal in a list position is the single item of that list (3.11 input coercion)
                       IF nt.k = "named" /\ nt.n = "In"
                       THEN FlattenSeq([i \in 1..Len(v.fs) |-> LET fd == InField(v.fs[i].key) IN
                                          IF fd.name = "" THEN <<>> ELSE UsagesInValue(v.fs[i].val, fd.type, fd.hasDef)])
